@@ -488,6 +488,31 @@ fn check(args: &[String]) -> i32 {
         tri.lines.push(format!("VIOLATION property={prop} replay={path}"));
         tri.violations += 1;
     }
+    // second engine (cross-check only): Miri on real std, produced by tools/miri_crosscheck.sh
+    let mut miri_summary: Option<Value> = None;
+    if prop == "C17" && tier == "thorough" && !spurious {
+        if let Some(v) = std::fs::read_to_string("/verif/target/run/miri_c17.json")
+            .ok()
+            .and_then(|t| serde_json::from_str::<Value>(&t).ok())
+        {
+            if let Some(fs) = v.get("failures").and_then(|f| f.as_array()) {
+                for f in fs {
+                    std::fs::create_dir_all(format!("{}/replays", out_base())).ok();
+                    let sc = f.get("scenario").and_then(|x| x.as_str()).unwrap_or("?");
+                    let sd = f.get("seed").and_then(|x| x.as_str()).unwrap_or("?");
+                    let path = format!("{}/replays/C17-miri-{sc}-{sd}.json", out_base());
+                    let rec = json!({"property": "C17", "kind": "miri", "class": "miri-failure", "signature": "",
+                        "detail": f.get("message"), "scenario": sc, "miri_seed": sd,
+                        "command": format!("/verif/tools/miri_crosscheck.sh 0 /dev/null {sc} {sd}")});
+                    std::fs::write(&path, serde_json::to_string_pretty(&rec).unwrap()).ok();
+                    tri.lines.push(format!("VIOLATION property=C17 replay={path}"));
+                    tri.lines.push(format!("  class=miri-failure scenario={sc} seed={sd} {}", f.get("message").and_then(|x| x.as_str()).unwrap_or("")));
+                    tri.violations += 1;
+                }
+            }
+            miri_summary = Some(v);
+        }
+    }
     for l in &tri.lines {
         println!("{l}");
     }
@@ -522,6 +547,9 @@ fn check(args: &[String]) -> i32 {
             }
             c.insert(k.clone(), v.clone());
         }
+    }
+    if let Some(m) = miri_summary {
+        coverage["second_engine_cross_check"] = m;
     }
     if prop == "C12" {
         let all_ex = merged.get("all_sweeps_exhaustive").and_then(|x| x.as_bool()).unwrap_or(false);
@@ -656,6 +684,30 @@ fn replay_main(args: &[String]) -> i32 {
     world::init();
     hook::install();
     let prop = v.get("property").and_then(|x| x.as_str()).unwrap_or("?").to_string();
+    if v.get("kind").and_then(|x| x.as_str()) == Some("miri") {
+        let sc = v.get("scenario").and_then(|x| x.as_str()).unwrap_or("protocol");
+        let sd = v.get("miri_seed").and_then(|x| x.as_str()).unwrap_or("0");
+        let st = Command::new("/verif/tools/miri_crosscheck.sh")
+            .args(["0", "/dev/null", sc, sd])
+            .stdout(Stdio::null())
+            .stderr(Stdio::null())
+            .status();
+        return match st {
+            Ok(s) if s.success() => {
+                println!("REPLAY reproduced=false class=ok (miri scenario {sc} seed {sd} passes)");
+                0
+            }
+            Ok(_) => {
+                println!("REPLAY reproduced=true class=miri-failure hash_match=true detail=miri scenario {sc} seed {sd} fails");
+                println!("VIOLATION property={prop} replay={path}");
+                1
+            }
+            Err(e) => {
+                println!("REPLAY error: {e}");
+                2
+            }
+        };
+    }
     if v.get("kind").and_then(|x| x.as_str()) == Some("hang") {
         // re-execute the named run in a child process under a wall-clock limit
         let seed = v.get("verif_seed").and_then(|x| x.as_u64()).unwrap_or(1);
@@ -791,6 +843,7 @@ fn main() {
         Some("replay") => replay_main(&args),
         Some("minimise") => minimise_main(&args),
         Some("runone") => runone_main(&args),
+        Some("rejection-stats") => { rejection_stats(); 0 }
         Some("selftest-determinism") => selftest(&args),
         _ => {
             eprintln!("usage: pestsim check|worker|replay|selftest-determinism ...");
@@ -799,4 +852,26 @@ fn main() {
     };
     let _ = Path::new("/");
     std::process::exit(code);
+}
+
+#[allow(dead_code)]
+fn rejection_stats() {
+    let mut rng = prng::Rng::new(7);
+    let mut m: BTreeMap<String, u64> = BTreeMap::new();
+    for _ in 0..20000 {
+        let g = gen::gen_grammar(&mut rng, &gen::GenCfg::default());
+        match pest_meta::parse_and_optimize(&g.to_pest()) {
+            Ok(_) => *m.entry("ok".into()).or_default() += 1,
+            Err(es) => {
+                let e = format!("{}", es[0].variant.message());
+                let key: String = e.split(':').next().unwrap_or("").chars().take(70).collect();
+                *m.entry(key).or_default() += 1;
+            }
+        }
+    }
+    let mut v: Vec<_> = m.into_iter().collect();
+    v.sort_by_key(|x| std::cmp::Reverse(x.1));
+    for (k, n) in v.iter().take(15) {
+        println!("{n:>7} {k}");
+    }
 }
